@@ -44,6 +44,13 @@ STD_AXIOMS = (
 )
 
 
+STD_PREFIXES = ("Uint63.", "PrimInt63.", "Sint63.")   # primitive machine integers (used by the Interval tactic), declared by the standard library
+
+
+def std_axiom(a):
+    return a in STD_AXIOMS or a.startswith(STD_PREFIXES)
+
+
 class Lock:
     def __enter__(self):
         self.f = open(LOCK, "w")
@@ -320,7 +327,7 @@ def run_check(pid, tier, seed, replay=None):
 
     names, axioms, ass_out = print_assumptions(pid)
     obligations.append(("Print Assumptions on %d theorems of Properties/%s.v lists only standard-library axioms" % (len(names), pid),
-                        axioms is not None and all(a in STD_AXIOMS for a in axioms), axioms if axioms is not None else ass_out))
+                        axioms is not None and all(std_axiom(a) for a in axioms), axioms if axioms is not None else ass_out))
 
     failing_items = []
     if info.get("ok") and not tie_ok and hasattr(mod, "DIAG"):
